@@ -149,6 +149,14 @@ def c04(pid, tier, seed):
                             key = f"C04|{kind}|{inf.get('position')}|{inf.get('cls')}" + (f"|{inf.get('form')}" if inf.get("form") else "")
                             chk.violation(key, f"[{cfg}] {path} written for {ev['rust']} ({inf.get('position')}: {inf.get('text')!r}): {kind}: {detail}",
                                           {"root": ev["rust"], "path": path, "file": f, "info": inf}, tags=tags + [kind])
+                    # the bindings directory cleaned, the same export once more: the files are complete again
+                    for path, f in ((ev.get("reexport_after_delete") or {}).get("files") or {}).items():
+                        chk.add_eval()
+                        exp = expected.get(path)
+                        for kind, detail in file_problems(f, sorted(set(exp)) if exp is not None else None):
+                            key = f"C04|after-clean|{kind}|{inf.get('position')}|{inf.get('cls')}" + (f"|{inf.get('form')}" if inf.get("form") else "")
+                            chk.violation(key, f"[{cfg}] {path} written again for {ev['rust']} after its files were deleted: {kind}: {detail}",
+                                          {"root": ev["rust"], "path": path, "file": f, "info": inf}, tags=tags + [kind, "after-clean"])
                     # the string the user wrote arrives unchanged (as the TypeScript parser reads it back)
                     if inf.get("position") in ("field-rename", "variant-rename", "variant-rename-expr", "tag", "content", "struct-tag", "variant-field-rename"):
                         own = [d for f in ev["files"].values() for d in f.get("decls", []) if d["name"] == ev.get("ident")]
@@ -178,6 +186,13 @@ def c04(pid, tier, seed):
                     chk.violation(f"C04|graph|{kind}|{it.id}", f"{path} written for {ev['rust']}: {kind}: {detail}",
                                   {"root": ev["rust"], "path": path, "file": f, "source": tsgen.emit_item(it)},
                                   tags=graph.tags_of(it) + graph.dep_ktags(it, args) + [kind, "graph"])
+            for path, f in ((ev.get("reexport_after_delete") or {}).get("files") or {}).items():
+                chk.add_eval()
+                exp = sorted(expected[path]) if path in expected else None
+                for kind, detail in file_problems(f, exp):
+                    chk.violation(f"C04|graph|after-clean|{kind}|{it.id}", f"{path} written again for {ev['rust']} after its files were deleted: {kind}: {detail}",
+                                  {"root": ev["rust"], "path": path, "file": f, "source": tsgen.emit_item(it)},
+                                  tags=graph.tags_of(it) + graph.dep_ktags(it, args) + [kind, "graph", "after-clean"])
     finally:
         cleanup_scratch()
     return chk.finish(min_evaluations=300, min_distinct=40)
